@@ -516,11 +516,29 @@ theorem removeMissing_congr (db₁ db₂ : BibData) (hget : ∀ k, db₁.entries
       rw [hget]
     simp only [BibData.removeMissing, ih, this]
 
+theorem danglingExtras_congr (db₁ db₂ : BibData) (hget : ∀ k, db₁.entries.getItem k = db₂.entries.getItem k)
+    (l : List Str) : BibData.danglingExtras db₁ l = BibData.danglingExtras db₂ l := by
+  induction l with
+  | nil => rfl
+  | cons c r ih =>
+    simp only [BibData.danglingExtras, hget c]
+    cases db₂.entries.getItem c with
+    | none => exact ih
+    | some e =>
+      simp only []
+      cases e.fields.getItem xrefName with
+      | none => exact ih
+      | some x =>
+        have : db₁.entries.contains x = db₂.entries.contains x := by
+          show (db₁.entries.getItem x).isSome = (db₂.entries.getItem x).isSome
+          rw [hget]
+        simp only [this, ih]
+
 theorem addExtraCitations_congr (db₁ db₂ : BibData) (hget : ∀ k, db₁.entries.getItem k = db₂.entries.getItem k)
     (cits : List Str) (mc : Int) (h : ∀ c ∈ cits, c ≠ star) :
     BibData.addExtraCitations db₁ cits mc = BibData.addExtraCitations db₂ cits mc := by
   simp only [BibData.addExtraCitations, BibData.expandWildcard, BibData.crossreferenced,
-    expandAux_nostar db₁ db₂ _ cits h, crossrefAux_congr db₁ db₂ hget]
+    expandAux_nostar db₁ db₂ _ cits h, crossrefAux_congr db₁ db₂ hget, danglingExtras_congr db₁ db₂ hget]
 
 theorem removeMissing_mem (db : BibData) (l : List Str) : ∀ k ∈ (BibData.removeMissing db l).1, (db.entries.getItem k).isSome = true := by
   induction l with
